@@ -2,4 +2,798 @@
 
 package main
 
-func (sc *metaScn) c08Check(st *metaStep) {}
+import (
+	"encoding/json"
+	"fmt"
+	"os"
+	"os/exec"
+	"path/filepath"
+	"reflect"
+	"sort"
+	"strings"
+	"syscall"
+	"testing"
+	"time"
+
+	"github.com/tinode/chat/server/auth"
+	"github.com/tinode/chat/server/db/vfmem"
+	"github.com/tinode/chat/server/store/types"
+	"github.com/tinode/chat/server/vfkit"
+)
+
+// ---- C08: the live topic state and the stored state never diverge.
+
+func normJSON(v any) string {
+	b, _ := json.Marshal(jsonNorm(v))
+	if string(b) == "null" {
+		return ""
+	}
+	return string(b)
+}
+
+func normRaw(raw json.RawMessage) string {
+	if len(raw) == 0 {
+		return ""
+	}
+	var v any
+	json.Unmarshal(raw, &v)
+	return normJSON(v)
+}
+
+// c08CacheVsRows compares the loaded topic's cached fields with the store rows. Only called at
+// logical quiescence (the actor is parked, the last reply has been received).
+func (sc *metaScn) c08CacheVsRows(st *metaStep, label string) {
+	r := sc.r
+	t := globals.hub.topicGet(sc.canon)
+	if t == nil {
+		return
+	}
+	rows := sc.rowsNow()
+	if rows.topic == nil {
+		return
+	}
+	r.Hit("cache_equals_rows")
+	bad := func(field, cached, stored string) {
+		who := ""
+		if st != nil {
+			who = ":after:" + st.Kind
+		}
+		sig := "cache-diverged:" + field + who + label
+		if strings.HasPrefix(label, ":fault:") {
+			f := field
+			if i := strings.Index(f, ":"); i >= 0 {
+				f = f[:i]
+			}
+			sig = "fault-cache-diverged:" + strings.TrimPrefix(label, ":fault:") + ":" + f
+		}
+		r.Violation(sig, fmt.Sprintf("topic %s: cached %s = %s, stored %s", sc.kind, field, cached, stored), sc.wit(st, nil))
+	}
+	tr := rows.topic
+	if t.lastID != tr.SeqId {
+		bad("seq", fmt.Sprint(t.lastID), fmt.Sprint(tr.SeqId))
+	}
+	if t.delID != tr.DelId {
+		bad("delId", fmt.Sprint(t.delID), fmt.Sprint(tr.DelId))
+	}
+	if sc.kind == "grp" {
+		if t.owner != tr.Owner {
+			bad("owner", sc.roleOf(t.owner), sc.roleOf(tr.Owner))
+		}
+		if t.accessAuth != tr.Access.Auth || t.accessAnon != tr.Access.Anon {
+			bad("defacs", t.accessAuth.String()+"/"+t.accessAnon.String(), tr.Access.Auth.String()+"/"+tr.Access.Anon.String())
+		}
+		if strings.Join(t.tags, ",") != strings.Join(tr.Tags, ",") {
+			bad("tags", fmt.Sprint(t.tags), fmt.Sprint(tr.Tags))
+		}
+		if normJSON(t.public) != normRaw(tr.Public) {
+			bad("public", normJSON(t.public), normRaw(tr.Public))
+		}
+		if normJSON(t.trusted) != normRaw(tr.Trusted) {
+			bad("trusted", normJSON(t.trusted), normRaw(tr.Trusted))
+		}
+	}
+	for uid, row := range rows.subs {
+		pud, ok := t.perUser[uid]
+		who := sc.roleOf(uid)
+		if row.DeletedAt != nil {
+			if ok && !pud.deleted {
+				bad("subscription-present:"+who, "live", "deleted")
+			}
+			continue
+		}
+		if !ok || pud.deleted {
+			bad("subscription-missing:"+who, "absent", rowStr(row))
+			continue
+		}
+		if pud.modeWant != row.ModeWant {
+			bad("want:"+who, pud.modeWant.String(), row.ModeWant.String())
+		}
+		if pud.modeGiven != row.ModeGiven {
+			bad("given:"+who, pud.modeGiven.String(), row.ModeGiven.String())
+		}
+		if pud.readID != row.ReadSeqId {
+			bad("read:"+who, fmt.Sprint(pud.readID), fmt.Sprint(row.ReadSeqId))
+		}
+		if pud.recvID != row.RecvSeqId {
+			bad("recv:"+who, fmt.Sprint(pud.recvID), fmt.Sprint(row.RecvSeqId))
+		}
+		if pud.delID != row.DelId {
+			bad("clear:"+who, fmt.Sprint(pud.delID), fmt.Sprint(row.DelId))
+		}
+		if normJSON(pud.private) != normRaw(row.Private) {
+			bad("private:"+who, normJSON(pud.private), normRaw(row.Private))
+		}
+	}
+	for uid, pud := range t.perUser {
+		if _, ok := rows.subs[uid]; !ok && !pud.deleted && !pud.isChan {
+			bad("subscription-extra:"+sc.roleOf(uid), "cached", "no row")
+		}
+	}
+}
+
+func (sc *metaScn) c08Check(st *metaStep) {
+	if sc.deleted || sc.broken {
+		return
+	}
+	if st.after.topic == nil {
+		sc.deleted = true
+		return
+	}
+	if st.Kind == "reload" {
+		return
+	}
+	n := sc.r.NViolations()
+	sc.c08CacheVsRows(st, "")
+	if sc.r.NViolations() > n {
+		sc.broken = true
+	}
+}
+
+// ---- probes
+
+func stripKeys(m map[string]any, keys ...string) {
+	for _, k := range keys {
+		delete(m, k)
+	}
+}
+
+// c08Probe returns normalised answers to the probe set for one subscriber.
+func (sc *metaScn) c08Probe(a *metaActor) map[string]string {
+	out := map[string]string{}
+	name := sc.nameFor(a)
+	norm := func(f *vfFrame, key string) string {
+		if f == nil {
+			return "<none>"
+		}
+		v, ok := f.B[key]
+		if !ok {
+			return fmt.Sprintf("code=%d", f.code())
+		}
+		switch x := v.(type) {
+		case map[string]any:
+			stripKeys(x, "updated", "touched", "created", "online", "seen", "ts")
+		case []any:
+			var list []string
+			for _, e := range x {
+				if m, ok := e.(map[string]any); ok {
+					stripKeys(m, "updated", "touched", "online", "seen", "ts")
+					list = append(list, normJSON(m))
+				}
+			}
+			sort.Strings(list)
+			return strings.Join(list, ";")
+		}
+		return normJSON(v)
+	}
+	for _, what := range []string{"desc", "sub", "tags", "del"} {
+		ans := a.c.get(name, what, nil)
+		switch {
+		case len(ans.Meta) > 0:
+			out[what] = norm(ans.Meta[0], what)
+		case ans.Ctrl != nil:
+			out[what] = fmt.Sprintf("code=%d", ans.Ctrl.code())
+		default:
+			out[what] = "<unanswered>"
+		}
+	}
+	ans := a.c.get(name, "data", map[string]any{"data": map[string]any{"limit": 100}})
+	var msgs []string
+	for _, f := range ans.Data {
+		msgs = append(msgs, fmt.Sprintf("%d:%s:%s:%s", f.num("seq"), f.str("from"), normJSON(f.B["content"]), normJSON(f.B["head"])))
+	}
+	sort.Strings(msgs)
+	out["data"] = strings.Join(msgs, ";")
+	return out
+}
+
+// c08Reload: probe, unload, reload, probe again; answers must be identical.
+func (sc *metaScn) c08Reload() {
+	r, e := sc.r, sc.w.e
+	if sc.deleted || sc.broken {
+		return
+	}
+	var was []*metaActor
+	before := map[*metaActor]map[string]string{}
+	for _, a := range sc.actors {
+		if a.c.attachState()[sc.nameFor(a)] {
+			was = append(was, a)
+			before[a] = sc.c08Probe(a)
+		}
+	}
+	if len(was) == 0 {
+		return
+	}
+	e.vfQuiesce()
+	rowsBefore := sc.rowsNow()
+	for _, a := range was {
+		a.c.leave(sc.nameFor(a), false)
+	}
+	e.vfQuiesce()
+	if !e.vfWaitUnloaded(sc.canon) {
+		r.Inconclusive("c08 reload: topic not unloaded")
+		return
+	}
+	for _, a := range was {
+		a.c.sub(sc.nameFor(a), nil)
+	}
+	e.vfQuiesce()
+	st := &metaStep{N: len(sc.steps), Kind: "reload", Actor: "-"}
+	st.before = sc.rowsNow()
+	st.after = st.before
+	sc.steps = append(sc.steps, st)
+	if eq, _ := metaRowsEqual(rowsBefore, st.after); !eq {
+		// re-attaching is itself a mutating request in some states (a self-banned user is un-banned by {sub}):
+		// the answers legitimately differ, nothing to compare for this reload.
+		r.Hit("reload_skipped_reattach_mutates")
+		sc.c08CacheVsRows(st, "")
+		return
+	}
+	for _, a := range was {
+		if !a.c.attachState()[sc.nameFor(a)] {
+			continue // could not re-attach (e.g. banned meanwhile): nothing to compare
+		}
+		after := sc.c08Probe(a)
+		r.Hit("reload_differential")
+		for what, bv := range before[a] {
+			if av := after[what]; av != bv {
+				r.Violation("reload-differential:"+sc.kind+":"+what, fmt.Sprintf("answer to {get %s} for %s differs after unload/reload", what, a.role),
+					sc.wit(nil, map[string]any{"before": bv, "after": av, "who": a.role}))
+				sc.broken = true
+			}
+		}
+	}
+	sc.c08CacheVsRows(st, "")
+}
+
+func c08Scenario(sc *metaScn, idx int) {
+	r, rng := sc.r, sc.w.rng
+	if sc.kind == "grp" {
+		own := sc.actor("owner")
+		sc.after(sc.do(sc.actor("admin"), "sub", nil, ""))
+		sc.after(sc.do(sc.actor("member"), "sub", nil, ""))
+		sc.after(sc.do(own, "setOther", sc.actor("admin"), "JRWPA"))
+		sc.after(sc.do(sc.actor("admin"), "setSelf", nil, "JRWPAS"))
+		sc.after(sc.do(sc.actor("candidate"), "sub", nil, ""))
+		sc.after(sc.do(own, "pub", nil, "first"))
+		switch idx % 4 {
+		case 0:
+			sc.after(sc.do(own, "setOther", sc.actor("candidate"), "JRWPASDO"))
+		case 1:
+			sc.after(sc.do(own, "setOther", sc.actor("candidate"), "JRWPASDO"))
+			sc.after(sc.do(sc.actor("candidate"), "setSelf", nil, "JRWPASDO"))
+		case 2:
+			// a member without R publishes
+			sc.after(sc.do(sc.actor("member"), "setSelf", nil, "JWPS"))
+			sc.after(sc.do(sc.actor("member"), "pub", nil, "blind"))
+			// a read note beyond the received mark
+			sc.after(sc.do(sc.actor("admin"), "noteRead", nil, "1"))
+		case 3:
+			// unattached session updates own subscription
+			sc.after(sc.do(sc.actor("member"), "leave", nil, ""))
+			sc.after(sc.do(sc.actor("member"), "setSelf", nil, "JRWS"))
+			sc.after(sc.do(sc.actor("member"), "setPrivate", nil, "offline"))
+		}
+	} else {
+		a, b := sc.actor("peerA"), sc.actor("peerB")
+		sc.after(sc.do(a, "sub", nil, ""))
+		sc.after(sc.do(b, "sub", nil, ""))
+		sc.after(sc.do(a, "pub", nil, "first"))
+		if idx%2 == 0 {
+			sc.after(sc.do(b, "leave", nil, ""))
+			sc.after(sc.do(b, "setSelf", nil, "JRWA"))
+		}
+	}
+	steps := 8 + rng.Intn(10)
+	every := 3
+	if !r.Quick() {
+		every = 1
+	}
+	for i := 0; i < steps && !sc.deleted && !sc.broken; i++ {
+		sc.after(sc.metaRandomStep())
+		if i%every == every-1 {
+			sc.c08Reload()
+		}
+	}
+	sc.c08Reload()
+	var shape []string
+	for _, s := range sc.steps {
+		shape = append(shape, fmt.Sprintf("%s/%s/%d", s.Actor, s.Kind, s.Code/100))
+	}
+	r.Eval(sc.kind + "/" + vfkit.Hash(shape))
+	if idx < 2 {
+		r.Sample(map[string]any{"kind": sc.kind, "script": sc.script()})
+	}
+}
+
+// ---- fault enumeration: every store call of every request kind is made to fail once.
+
+type c08Req struct {
+	name  string
+	kind  string // topic kind
+	setup func(sc *metaScn)
+	run   func(sc *metaScn) *metaStep
+}
+
+func c08Requests() []c08Req {
+	grp := func(sc *metaScn) {
+		sc.do(sc.actor("admin"), "sub", nil, "")
+		sc.do(sc.actor("member"), "sub", nil, "")
+		sc.do(sc.actor("owner"), "setOther", sc.actor("admin"), "JRWPAS")
+		sc.do(sc.actor("admin"), "setSelf", nil, "JRWPAS")
+		sc.do(sc.actor("owner"), "pub", nil, "m1")
+		sc.do(sc.actor("member"), "pub", nil, "m2")
+		sc.do(sc.actor("owner"), "pub", nil, "m3")
+	}
+	return []c08Req{
+		{"sub-new", "grp", grp, func(sc *metaScn) *metaStep { return sc.do(sc.actor("candidate"), "sub", nil, "") }},
+		{"set-own-want", "grp", grp, func(sc *metaScn) *metaStep { return sc.do(sc.actor("member"), "setSelf", nil, "JRWS") }},
+		{"set-other-given", "grp", grp, func(sc *metaScn) *metaStep { return sc.do(sc.actor("owner"), "setOther", sc.actor("member"), "JRWPSD") }},
+		{"invite", "grp", grp, func(sc *metaScn) *metaStep { return sc.do(sc.actor("owner"), "setOther", sc.actor("stranger"), "") }},
+		{"ownership-transfer", "grp", func(sc *metaScn) {
+			grp(sc)
+			sc.do(sc.actor("owner"), "setOther", sc.actor("admin"), "JRWPASDO")
+		}, func(sc *metaScn) *metaStep { return sc.do(sc.actor("admin"), "setSelf", nil, "JRWPASDO") }},
+		{"set-public", "grp", grp, func(sc *metaScn) *metaStep { return sc.do(sc.actor("owner"), "setPublic", nil, "newname") }},
+		{"set-public-private", "grp", grp, func(sc *metaScn) *metaStep {
+			a := sc.actor("owner")
+			st := &metaStep{N: len(sc.steps), Kind: "setPublicPrivate", Actor: a.role, actorU: a.u.uid}
+			st.before = sc.rowsNow()
+			f := a.c.set(sc.canon, map[string]any{"desc": map[string]any{"public": map[string]any{"fn": "both"}, "private": map[string]any{"note": "both"}}})
+			sc.w.e.vfQuiesce()
+			if f != nil {
+				st.Code, st.Reply = f.code(), f.Raw
+			}
+			st.after = sc.rowsNow()
+			sc.steps = append(sc.steps, st)
+			return st
+		}},
+		{"set-defacs", "grp", grp, func(sc *metaScn) *metaStep { return sc.do(sc.actor("owner"), "setDefacs", nil, "JRWP") }},
+		{"set-tags", "grp", grp, func(sc *metaScn) *metaStep { return sc.do(sc.actor("owner"), "setTags", nil, "alpha,beta") }},
+		{"pub", "grp", grp, func(sc *metaScn) *metaStep { return sc.do(sc.actor("member"), "pub", nil, "m4") }},
+		{"note-read", "grp", grp, func(sc *metaScn) *metaStep { return sc.do(sc.actor("admin"), "noteRead", nil, "2") }},
+		{"del-msg", "grp", grp, func(sc *metaScn) *metaStep { return sc.do(sc.actor("owner"), "delMsg", nil, "2") }},
+		{"del-sub", "grp", grp, func(sc *metaScn) *metaStep { return sc.do(sc.actor("owner"), "delSub", sc.actor("member"), "") }},
+		{"leave-unsub", "grp", grp, func(sc *metaScn) *metaStep { return sc.do(sc.actor("member"), "unsub", nil, "") }},
+		{"p2p-set-want", "p2p", func(sc *metaScn) {
+			sc.do(sc.actor("peerA"), "sub", nil, "")
+			sc.do(sc.actor("peerB"), "sub", nil, "")
+			sc.do(sc.actor("peerA"), "pub", nil, "m1")
+		}, func(sc *metaScn) *metaStep { return sc.do(sc.actor("peerB"), "setSelf", nil, "JRWA") }},
+	}
+}
+
+func c08Faults(r *vfkit.R, e *vfEnv) {
+	for ri, rq := range c08Requests() {
+		// learn the write calls of the fault-free request
+		learn := func(failAt int) (ops []string, st *metaStep, sc *metaScn, fired string) {
+			w := vfNewWorld(e, r, r.Rand(int64(500+ri)))
+			sc = metaSetup(w, r, "C08", rq.kind)
+			if sc == nil {
+				return nil, nil, nil, ""
+			}
+			rq.setup(sc)
+			e.vfQuiesce()
+			mark := vfRec.mark()
+			n := 0
+			if failAt >= 0 {
+				vfRec.setFault(func(c *vfmem.Call) error {
+					if !vfWriteOps[c.Op] || (c.Topic != sc.canon && c.Topic != "") {
+						return nil
+					}
+					if c.Op == "UserUpdate" || c.Op == "DeviceUpsert" {
+						return nil
+					}
+					n++
+					if n-1 == failAt {
+						fired = c.Op
+						return fmt.Errorf("vf injected failure at %s", c.Op)
+					}
+					return nil
+				})
+			}
+			st = rq.run(sc)
+			vfRec.setFault(nil)
+			e.vfQuiesce()
+			for _, ev := range vfRec.writesSince(mark) {
+				if (ev.Topic == sc.canon || ev.Topic == "") && ev.Op != "UserUpdate" && ev.Op != "DeviceUpsert" {
+					ops = append(ops, ev.Op)
+				}
+			}
+			return
+		}
+		ops, st0, sc0, _ := learn(-1)
+		if sc0 == nil {
+			continue
+		}
+		sc0.w.closeAll()
+		e.vfQuiesce()
+		if st0 == nil || (st0.Code >= 300 && st0.Kind != "noteRead") {
+			r.Inconclusive(fmt.Sprintf("c08 faults: fault-free %s answered %d", rq.name, st0.Code))
+			continue
+		}
+		if len(ops) == 0 {
+			r.Inconclusive("c08 faults: no store write for " + rq.name)
+			continue
+		}
+		for k := range ops {
+			_, st, sc, fired := learn(k)
+			if sc == nil {
+				continue
+			}
+			label := fmt.Sprintf("%s:fail@%d:%s", rq.name, k, fired)
+			r.Eval("fault/" + label)
+			if fired == "" {
+				r.Inconclusive("c08 faults: injection point not reached " + label)
+				sc.w.closeAll()
+				e.vfQuiesce()
+				continue
+			}
+			r.Hit("fault_point")
+			failed := st.Code == 0 || st.Code >= 400
+			if st.Kind == "noteRead" {
+				failed = true // notes are never acknowledged: judged as "not acknowledged"
+			}
+			if st.Code == 0 && st.Kind != "noteRead" {
+				r.Violation("fault-unanswered:"+label, "request was not answered when a store call failed", sc.wit(st, nil))
+			}
+			if failed {
+				r.Hit("failed_leaves_store_unchanged")
+				if eq, what := metaRowsEqual(st.before, st.after); !eq {
+					r.Violation("failed-but-store-changed:"+label, fmt.Sprintf("request failed (code %d) but %s changed in the store", st.Code, what), sc.wit(st, nil))
+				}
+			} else {
+				r.Hit("acknowledged_under_fault")
+			}
+			// in either case the live topic must agree with the store
+			n := r.NViolations()
+			sc.c08CacheVsRows(st, ":fault:"+label)
+			_ = n
+			sc.w.closeAll()
+			e.vfQuiesce()
+		}
+	}
+}
+
+// ---- crash enumeration: acknowledged => durable.
+
+type c08CrashSetup struct {
+	Users map[string][2]string // role -> uid, token
+	Canon string
+	Kind  string
+}
+
+func c08Crashes(r *vfkit.R) {
+	self, _ := os.Executable()
+	for ri, rq := range c08Requests() {
+		switch rq.name {
+		case "pub", "set-public", "set-other-given", "del-msg", "set-own-want", "ownership-transfer", "set-tags":
+		default:
+			continue
+		}
+		cleanDir := filepath.Join(r.OutDir, "c08clean-"+rq.name)
+		os.MkdirAll(cleanDir, 0755)
+		{
+			cmd := exec.Command(self, "-test.run", "^TestVfC08$", "-test.timeout", "0")
+			cmd.Env = append(os.Environ(), "VF_ROLE=clean", "VF_CRASHDIR="+cleanDir, "VF_CRASHREQ="+fmt.Sprint(ri), "VF_EVLOG=", "VF_OUT="+cleanDir)
+			if out, err := cmd.CombinedOutput(); err != nil {
+				r.Inconclusive("c08 crash: clean reference run failed for " + rq.name + ": " + tailStr(string(out), 300))
+				continue
+			}
+		}
+		var clean map[string]string
+		cb, _ := os.ReadFile(filepath.Join(cleanDir, "clean.json"))
+		json.Unmarshal(cb, &clean)
+		os.RemoveAll(cleanDir)
+		for k := 0; k < 5; k++ {
+			for _, when := range []string{"before", "after", "acked"} {
+				if when == "acked" && k > 0 {
+					continue
+				}
+				label := fmt.Sprintf("%s:%s-call-%d", rq.name, when, k)
+				dir := filepath.Join(r.OutDir, "c08crash-"+strings.ReplaceAll(label, ":", "_"))
+				os.MkdirAll(dir, 0755)
+				run := func(role string) (int, string) {
+					cmd := exec.Command(self, "-test.run", "^TestVfC08$", "-test.timeout", "0")
+					cmd.Env = append(os.Environ(), "VF_ROLE="+role, "VF_CRASHDIR="+dir, "VF_CRASHK="+fmt.Sprint(k), "VF_CRASHWHEN="+when,
+						"VF_CRASHREQ="+fmt.Sprint(ri), "VF_EVLOG="+filepath.Join(dir, role+".jsonl"), "VF_OUT="+dir)
+					out, err := cmd.CombinedOutput()
+					code := 0
+					if err != nil {
+						code = 1
+						if ee, ok := err.(*exec.ExitError); ok {
+							if ws, ok := ee.Sys().(syscall.WaitStatus); ok && ws.Signaled() && ws.Signal() == syscall.SIGKILL {
+								code = 137
+							} else {
+								code = ee.ExitCode()
+							}
+						}
+					}
+					return code, string(out)
+				}
+				code, out := run("crash1")
+				if code == 3 {
+					os.RemoveAll(dir)
+					continue // request has fewer than k+1 store calls
+				}
+				if code != 137 {
+					r.Inconclusive(fmt.Sprintf("c08 crash %s: phase 1 exit %d: %s", label, code, tailStr(out, 300)))
+					continue
+				}
+				code, out = run("crash2")
+				if code != 0 {
+					r.Violation("crash:restart-failed:"+label, "server could not restart / answer probes after the crash: "+tailStr(out, 500), nil)
+					continue
+				}
+				var res struct {
+					Acked  bool
+					Reply  string
+					Before map[string]string
+					After  map[string]string
+					Clean  map[string]string
+				}
+				b, _ := os.ReadFile(filepath.Join(dir, "result.json"))
+				json.Unmarshal(b, &res)
+				r.Eval("crash/" + label)
+				r.Hit("crash_point")
+				if when == "acked" && !res.Acked {
+					r.Inconclusive("c08 crash " + label + ": request was not acknowledged in the reference flow: " + res.Reply)
+				}
+				if res.Acked {
+					r.Hit("acknowledged_is_durable")
+					// the answers after restart must equal the answers of a run in which the request completed
+					for what, cv := range clean {
+						if res.After[what] != cv {
+							r.Violation("crash:acknowledged-lost:"+rq.name+":"+what, fmt.Sprintf("request %s was acknowledged before the crash but {get %s} after restart does not show it", rq.name, what),
+								map[string]any{"case": label, "reply": res.Reply, "after_restart": res.After[what], "expected": cv})
+						}
+					}
+				}
+				os.RemoveAll(dir)
+			}
+		}
+	}
+}
+
+func c08CrashPhase1() {
+	dir := os.Getenv("VF_CRASHDIR")
+	var k, ri int
+	fmt.Sscan(os.Getenv("VF_CRASHK"), &k)
+	fmt.Sscan(os.Getenv("VF_CRASHREQ"), &ri)
+	when := os.Getenv("VF_CRASHWHEN")
+	rq := c08Requests()[ri]
+	e := vfBoot(vfConfig{Push: true})
+	vfInstallRecorder(e)
+	r := vfkit.New("C08x")
+	w := vfNewWorld(e, r, r.Rand(3))
+	sc := metaSetup(w, r, "C08", rq.kind)
+	rq.setup(sc)
+	e.vfQuiesce()
+	st := c08CrashSetup{Users: map[string][2]string{}, Canon: sc.canon, Kind: sc.kind}
+	for _, a := range sc.actors {
+		st.Users[a.role] = [2]string{a.u.uid.String(), a.u.tok}
+	}
+	sb, _ := json.Marshal(st)
+	os.WriteFile(filepath.Join(dir, "setup.json"), sb, 0644)
+	// a clean reference: what probes answer when the request completes, taken from a snapshot copy
+	n := 0
+	match := func(c *vfmem.Call) bool {
+		return vfWriteOps[c.Op] && (c.Topic == sc.canon || c.Topic == "") && c.Op != "UserUpdate" && c.Op != "DeviceUpsert"
+	}
+	if when == "before" {
+		vfmem.A.SetIntercept(func(c *vfmem.Call) error {
+			if match(c) {
+				n++
+				if n-1 == k {
+					vfmem.A.SnapshotToFile(filepath.Join(dir, "snapshot.bin"))
+					syscall.Kill(os.Getpid(), syscall.SIGKILL)
+					select {}
+				}
+			}
+			return nil
+		})
+	} else if when == "after" {
+		vfmem.A.SetObserve(func(c *vfmem.Call, db *vfmem.DB) {
+			if match(c) {
+				n++
+				if n-1 == k {
+					vfmem.WriteSnapshotLocked(db, filepath.Join(dir, "snapshot.bin"))
+					syscall.Kill(os.Getpid(), syscall.SIGKILL)
+					select {}
+				}
+			}
+		})
+	}
+	st1 := rq.run(sc)
+	if when == "acked" {
+		// the reply has been received by the client: the change must already be in the store
+		vfmem.A.SnapshotToFile(filepath.Join(dir, "snapshot.bin"))
+		_ = st1
+		syscall.Kill(os.Getpid(), syscall.SIGKILL)
+		select {}
+	}
+	os.Exit(3)
+}
+
+// c08CleanRun: the same deterministic flow without a crash; its probe answers are the reference.
+func c08CleanRun() {
+	dir := os.Getenv("VF_CRASHDIR")
+	var ri int
+	fmt.Sscan(os.Getenv("VF_CRASHREQ"), &ri)
+	rq := c08Requests()[ri]
+	e := vfBoot(vfConfig{Push: true})
+	vfInstallRecorder(e)
+	r := vfkit.New("C08x")
+	w := vfNewWorld(e, r, r.Rand(3))
+	sc := metaSetup(w, r, "C08", rq.kind)
+	rq.setup(sc)
+	e.vfQuiesce()
+	rq.run(sc)
+	e.vfQuiesce()
+	out := c08ProbeAll(sc)
+	b, _ := json.Marshal(out)
+	os.WriteFile(filepath.Join(dir, "clean.json"), b, 0644)
+	os.Exit(0)
+}
+
+// c08ProbeAll attaches every subscriber and collects the probe answers with ids replaced by role names.
+func c08ProbeAll(sc *metaScn) map[string]string {
+	out := map[string]string{}
+	var repl []string
+	for _, a := range sc.actors {
+		repl = append(repl, a.u.uid.UserId(), "@"+a.role, a.u.uid.String(), "@"+a.role)
+	}
+	repl = append(repl, sc.canon, "@TOPIC")
+	rp := strings.NewReplacer(repl...)
+	rows := sc.rowsNow()
+	for _, a := range sc.actors {
+		if row, ok := rows.subs[a.u.uid]; !ok || row.DeletedAt != nil {
+			continue // attaching would create a subscription
+		}
+		f := a.c.sub(sc.nameFor(a), nil)
+		if f == nil || f.code() >= 400 {
+			out[a.role+"/attach"] = codeStr(f)
+			continue
+		}
+	}
+	sc.w.e.vfQuiesce()
+	for _, a := range sc.actors {
+		if !a.c.attachState()[sc.nameFor(a)] {
+			continue
+		}
+		for what, v := range sc.c08Probe(a) {
+			out[a.role+"/"+what] = rp.Replace(v)
+		}
+	}
+	return out
+}
+
+func c08CrashPhase2() {
+	dir := os.Getenv("VF_CRASHDIR")
+	var ri int
+	fmt.Sscan(os.Getenv("VF_CRASHREQ"), &ri)
+	_ = c08Requests()[ri]
+	var st c08CrashSetup
+	b, _ := os.ReadFile(filepath.Join(dir, "setup.json"))
+	json.Unmarshal(b, &st)
+	// was the request acknowledged before the kill? (from the phase-1 event log)
+	acked, reply := c08AckedInLog(filepath.Join(dir, "crash1.jsonl"))
+	e := vfBoot(vfConfig{Push: true, Restore: filepath.Join(dir, "snapshot.bin")})
+	vfInstallRecorder(e)
+	r := vfkit.New("C08x")
+	w := vfNewWorld(e, r, r.Rand(3))
+	sc := &metaScn{w: w, r: r, focus: "C08", kind: st.Kind, canon: st.Canon, offeredO: map[types.Uid]bool{}}
+	for role, ut := range st.Users {
+		u := &vfUser{name: role, uid: types.ParseUid(ut[0]), tok: ut[1], level: auth.LevelAuth}
+		w.users = append(w.users, u)
+		sc.actors = append(sc.actors, &metaActor{u: u, role: role, c: w.conn(u, false)})
+	}
+	after := c08ProbeAll(sc)
+	var clean map[string]string
+	res := map[string]any{"Acked": acked, "Reply": reply, "After": after, "Clean": clean}
+	rb, _ := json.Marshal(res)
+	os.WriteFile(filepath.Join(dir, "result.json"), rb, 0644)
+	os.Exit(0)
+}
+
+// c08AckedInLog: the last request sent in phase 1 and whether a success reply to it was received.
+func c08AckedInLog(p string) (bool, string) {
+	b, _ := os.ReadFile(p)
+	lastID := ""
+	var replies = map[string]string{}
+	codes := map[string]int{}
+	for _, line := range strings.Split(string(b), "\n") {
+		var rec map[string]any
+		if line == "" || json.Unmarshal([]byte(line), &rec) != nil {
+			continue
+		}
+		switch rec["k"] {
+		case "send":
+			raw, _ := rec["raw"].(string)
+			var m map[string]any
+			if json.Unmarshal([]byte(raw), &m) == nil {
+				for _, v := range m {
+					if body, ok := v.(map[string]any); ok {
+						if id, ok := body["id"].(string); ok {
+							lastID = id
+						}
+					}
+				}
+			}
+		case "recv":
+			f, _ := rec["f"].(map[string]any)
+			if ctrl, ok := f["ctrl"].(map[string]any); ok {
+				id, _ := ctrl["id"].(string)
+				code, _ := ctrl["code"].(float64)
+				codes[id] = int(code)
+				rb, _ := json.Marshal(f)
+				replies[id] = string(rb)
+			}
+		}
+	}
+	c, ok := codes[lastID]
+	return ok && c >= 200 && c < 300, replies[lastID]
+}
+
+func TestVfC08(t *testing.T) {
+	switch os.Getenv("VF_ROLE") {
+	case "crash1":
+		c08CrashPhase1()
+		return
+	case "crash2":
+		c08CrashPhase2()
+		return
+	case "clean":
+		c08CleanRun()
+		return
+	}
+	r := vfkit.New("C08")
+	defer r.Flush(true)
+	e := vfBoot(vfConfig{Push: true})
+	vfInstallRecorder(e)
+	if r.Batch() == 0 {
+		c08Faults(r, e)
+		r.Flush(false)
+		c08Crashes(r)
+		r.Flush(false)
+	}
+	rng := r.Rand(1)
+	n := r.Pick(8, 40)
+	for i := 0; i < n; i++ {
+		w := vfNewWorld(e, r, rng)
+		kind := "grp"
+		if i%3 == 2 {
+			kind = "p2p"
+		}
+		sc := metaSetup(w, r, "C08", kind)
+		if sc != nil {
+			c08Scenario(sc, i+r.Batch())
+		}
+		w.closeAll()
+		e.vfQuiesce()
+		if i%4 == 3 {
+			r.Flush(false)
+		}
+	}
+	_ = reflect.DeepEqual
+	_ = time.Now
+}
